@@ -48,11 +48,11 @@ func (c c17C_bn254) showFrs(l []fr.Element) string {
 // ------------------------------------------------------------------------------------------- permutation
 
 type c17Perm_bn254 struct {
-	size           *int
-	g              *fr.Element
-	t1, t2, z, q   *kzg.Digest
-	batched        *kzg.BatchOpeningProof
-	shifted        *kzg.OpeningProof
+	size         *int
+	g            *fr.Element
+	t1, t2, z, q *kzg.Digest
+	batched      *kzg.BatchOpeningProof
+	shifted      *kzg.OpeningProof
 }
 
 func (c17C_bn254) permFields(p *permutation.Proof) c17Perm_bn254 {
@@ -286,9 +286,11 @@ func (c c17C_bn254) rootsOfUnity(m int) ([]fr.Element, bool) {
 // other component is derived honestly for that parameter: commitments of t1, t2, an accumulator z with z(1) = 1 and
 // z(g·x)(ε − t2(x)) = z(x)(ε − t1(x)) on H, the exact quotient q by X^m − 1, the verifier's own Fiat-Shamir challenges,
 // genuine KZG openings at η and g·η. Every check of Verify passes except, possibly, the check of the parameter itself.
-//   g ∈ H (order d | m): z is propagated along the orbit of 1 (closure is required: the two vectors agree as multisets on
-//     the orbit of 1) and is 0 on every other orbit (where t1, t2 are then arbitrary);
-//   g ∉ H, g ≠ 0: z is free on H (seeded by sd) and z(g·x) is solved for; g = 0: z(0) is solved from z(1) = 1.
+//
+//	g ∈ H (order d | m): z is propagated along the orbit of 1 (closure is required: the two vectors agree as multisets on
+//	  the orbit of 1) and is 0 on every other orbit (where t1, t2 are then arbitrary);
+//	g ∉ H, g ≠ 0: z is free on H (seeded by sd) and z(g·x) is solved for; g = 0: z(0) is solved from z(1) = 1.
+//
 // ok = false: no such proof (closure fails / a zero denominator).
 func (c c17C_bn254) permForge(srs *kzg.SRS, t1v, t2v []fr.Element, m int, g, sd fr.Element) (proof permutation.Proof, ok bool) {
 	H, okH := c.rootsOfUnity(m)
@@ -445,10 +447,10 @@ func (c c17C_bn254) permutation(a kvs, derive bool) string {
 // ----------------------------------------------------------------------------------------------- plookup
 
 type c17Plk_bn254 struct {
-	size                  *uint64
-	g                     *fr.Element
-	h1, h2, t, z, f, h    *kzg.Digest
-	batched, shifted      *kzg.BatchOpeningProof
+	size               *uint64
+	g                  *fr.Element
+	h1, h2, t, z, f, h *kzg.Digest
+	batched, shifted   *kzg.BatchOpeningProof
 }
 
 func (c17C_bn254) plkFields(p *plookup.ProofLookupVector) c17Plk_bn254 {
@@ -542,6 +544,265 @@ func (c c17C_bn254) plkMutate(a kvs, x c17Plk_bn254, o c17Plk_bn254) (kb, ks, ok
 	return
 }
 
+// a / (X − r); exact = the remainder is zero
+func (c17C_bn254) pDivLin(a []fr.Element, r fr.Element) (q []fr.Element, exact bool) {
+	if len(a) == 0 {
+		return make([]fr.Element, 1), true
+	}
+	q = make([]fr.Element, len(a))
+	var carry, t fr.Element
+	for i := len(a) - 1; i >= 0; i-- {
+		carry.Mul(&carry, &r).Add(&carry, &a[i])
+		q[i] = carry
+	}
+	// q[i] holds the Horner prefix: quotient coefficient i−1 is q[i], the remainder is q[0]
+	if !q[0].IsZero() {
+		return nil, false
+	}
+	_ = t
+	q = q[1:]
+	if len(q) == 0 {
+		q = make([]fr.Element, 1)
+	}
+	return q, true
+}
+
+func (c17C_bn254) frIndex(l []fr.Element, x fr.Element) int {
+	for i := range l {
+		if l[i].Equal(&x) {
+			return i
+		}
+	}
+	return -1
+}
+
+// CONSISTENT FORGERY of a plookup VECTOR proof under the prover-supplied (size, g) = (m, g): f, t are given by their values
+// fv, tv on the m-th roots of unity H (natural order 1, w, w², …), every other component is derived for that parameter so that
+// every check of VerifyLookupVector passes except, possibly, the check of the parameter itself. With G = g^(m−1) the
+// verifier's identity needs  h1(G) = h2(g^m),  z(G) = 1,  z(1) = 1  and, for x ∈ H∖{G},  z(x)·A(x) = z(g·x)·B(x)  where
+// A = (1+β)(γ+f)(γ(1+β) + t + β·t(gX)),  B = (γ(1+β) + h1 + β·h1(gX))(γ(1+β) + h2 + β·h2(gX)).
+//
+//	g ∈ H of order d: on the orbit O of 1 an honest plookup instance of size d (f|O ⊂ t|O is required; h1, h2 = the two
+//	  halves of the sorted concatenation), z propagated along O (closure z(G) = 1 is checked) and z = 0 off O, where f, t
+//	  are then arbitrary;
+//	g ∉ H, g ≠ 0: z free on H (seeded by sd), z(g·x) solved for, h1 gets the extra interpolation condition at G;
+//	g = 0: needs f(1) = t(1); t, h1, h2 take that value at 0, z(0) = 1, z(x) = B(x)/A(x).
+//
+// ok = false: no such proof.
+func (c c17C_bn254) plkForge(srs *kzg.SRS, fv, tv []fr.Element, m int, g, sd fr.Element) (proof plookup.ProofLookupVector, ok bool) {
+	H, okH := c.rootsOfUnity(m)
+	if !okH || m < 2 || len(fv) != m || len(tv) != m {
+		return proof, false
+	}
+	x := c.plkFields(&proof)
+	*x.size, *x.g = uint64(m), g
+	var one, G, gn, zero fr.Element
+	one.SetOne()
+	G.Exp(g, big.NewInt(int64(m-1)))
+	gn.Mul(&G, &g)
+	k := c.frIndex(H, g)
+	h1v, h2v := append([]fr.Element{}, tv...), append([]fr.Element{}, tv...)
+	fv, tv = append([]fr.Element{}, fv...), append([]fr.Element{}, tv...)
+	var cf, ct, ch1, ch2 []fr.Element
+	var orbit []int
+	switch {
+	case k >= 0:
+		seen := make([]bool, m)
+		for idx := 0; !seen[idx]; idx = (idx + k) % m {
+			seen[idx] = true
+			orbit = append(orbit, idx)
+		}
+		d := len(orbit)
+		used := make([]bool, d)
+		var s []fr.Element
+		for j := 0; j < d; j++ {
+			s = append(s, tv[orbit[j]])
+			for i := 0; i < d-1; i++ {
+				if !used[i] && fv[orbit[i]].Equal(&tv[orbit[j]]) {
+					used[i] = true
+					s = append(s, fv[orbit[i]])
+				}
+			}
+		}
+		if len(s) != 2*d-1 {
+			return proof, false // some looked-up value of the orbit is not in the table of the orbit
+		}
+		for j := 0; j < d; j++ {
+			h1v[orbit[j]], h2v[orbit[j]] = s[j], s[d-1+j]
+		}
+		cf, ct, ch1, ch2 = c.pInterp(H, fv), c.pInterp(H, tv), c.pInterp(H, h1v), c.pInterp(H, h2v)
+	case g.IsZero():
+		if !fv[0].Equal(&tv[0]) {
+			return proof, false
+		}
+		h1v[0], h2v[0] = tv[0], tv[0]
+		H0 := append(append([]fr.Element{}, H...), zero)
+		cf = c.pInterp(H, fv)
+		ct = c.pInterp(H0, append(tv, tv[0]))
+		ch1 = c.pInterp(H0, append(h1v, tv[0]))
+		ch2 = c.pInterp(H0, append(h2v, tv[0]))
+	default:
+		cf, ct, ch2 = c.pInterp(H, fv), c.pInterp(H, tv), c.pInterp(H, h2v)
+		target := c.evalPoly(ch2, gn)
+		if iG := c.frIndex(H, G); iG >= 0 {
+			h1v[iG] = target
+			ch1 = c.pInterp(H, h1v)
+		} else {
+			ch1 = c.pInterp(append(append([]fr.Element{}, H...), G), append(h1v, target))
+		}
+	}
+	var err error
+	commit := func(d *kzg.Digest, p []fr.Element) bool {
+		*d, err = kzg.Commit(p, srs.Pk)
+		return err == nil
+	}
+	if !commit(x.t, ct) || !commit(x.f, cf) || !commit(x.h1, ch1) || !commit(x.h2, ch2) {
+		return proof, false
+	}
+	fs := fiatshamir.NewTranscript(sha256.New(), "beta", "gamma", "alpha", "nu")
+	beta := c.deriveG1(fs, "beta", x.t, x.f, x.h1, x.h2)
+	gamma := c.deriveG1(fs, "gamma")
+	var v, w fr.Element
+	v.Add(&one, &beta)
+	w.Mul(&v, &gamma)
+	// w + p(x) + β·p(g·x)
+	comb := func(p []fr.Element, pt fr.Element) fr.Element {
+		var gx, r fr.Element
+		gx.Mul(&g, &pt)
+		r = c.evalPoly(p, gx)
+		r.Mul(&r, &beta)
+		e := c.evalPoly(p, pt)
+		r.Add(&r, &e).Add(&r, &w)
+		return r
+	}
+	ratio := func(pt fr.Element) (fr.Element, bool) { // A(pt)/B(pt)
+		var A, B fr.Element
+		A = c.evalPoly(cf, pt)
+		A.Add(&A, &gamma).Mul(&A, &v)
+		tt := comb(ct, pt)
+		A.Mul(&A, &tt)
+		B = comb(ch1, pt)
+		hh := comb(ch2, pt)
+		B.Mul(&B, &hh)
+		if A.IsZero() || B.IsZero() {
+			return A, false
+		}
+		A.Div(&A, &B)
+		return A, true
+	}
+	xs := append([]fr.Element{}, H...)
+	ys := make([]fr.Element, m)
+	ys[0] = one
+	switch {
+	case k >= 0:
+		for j := 0; j+1 < len(orbit); j++ {
+			q, okq := ratio(H[orbit[j]])
+			if !okq {
+				return proof, false
+			}
+			ys[orbit[j+1]].Mul(&ys[orbit[j]], &q)
+		}
+		if !ys[orbit[len(orbit)-1]].Equal(&one) {
+			return proof, false
+		}
+	case g.IsZero():
+		for i := 1; i < m; i++ {
+			q, okq := ratio(H[i])
+			if !okq {
+				return proof, false
+			}
+			ys[i].Inverse(&q)
+		}
+		if q, okq := ratio(H[0]); !okq || !q.Equal(&one) {
+			return proof, false
+		}
+		xs, ys = append(xs, zero), append(ys, one)
+	default:
+		iG := c.frIndex(H, G)
+		var xstar fr.Element
+		xstar.Div(&G, &g)
+		iS := c.frIndex(H, xstar)
+		if iS == 0 {
+			return proof, false
+		}
+		for i := 1; i < m; i++ {
+			ys[i].SetUint64(uint64(i))
+			ys[i].Add(&ys[i], &sd)
+			if ys[i].IsZero() {
+				ys[i] = one
+			}
+		}
+		if iG >= 0 {
+			ys[iG] = one
+		}
+		if iS > 0 {
+			q, okq := ratio(H[iS])
+			if !okq {
+				return proof, false
+			}
+			ys[iS].Inverse(&q)
+		}
+		for i := 0; i < m; i++ {
+			if i == iG {
+				continue
+			}
+			q, okq := ratio(H[i])
+			if !okq {
+				return proof, false
+			}
+			var gx, val fr.Element
+			gx.Mul(&g, &H[i])
+			val.Mul(&ys[i], &q)
+			xs, ys = append(xs, gx), append(ys, val)
+		}
+		if iG < 0 && iS < 0 {
+			xs, ys = append(xs, G), append(ys, one)
+		}
+	}
+	cz := c.pInterp(xs, ys)
+	if !commit(x.z, cz) {
+		return proof, false
+	}
+	alpha := c.deriveG1(fs, "alpha", x.z)
+	// h = α³(h1 − h2(gX))/(X−G) + α²(z−1)/(X−G) + α(z−1)/(X−1) + (X−G)(z·A − z(gX)·B)/(X^m − 1)
+	zm1 := c.pSub(cz, []fr.Element{one})
+	tA, e1 := c.pDivLin(c.pSub(ch1, c.pShiftArg(ch2, g)), G)
+	tB, e2 := c.pDivLin(zm1, G)
+	tC, e3 := c.pDivLin(zm1, one)
+	if !e1 || !e2 || !e3 {
+		return proof, false
+	}
+	lin := func(p []fr.Element) []fr.Element { // w + p + β·p(gX)
+		return c.pAdd(c.pAdd([]fr.Element{w}, p), c.pScale(c.pShiftArg(p, g), beta))
+	}
+	pA := c.pScale(c.pMul(c.pAdd([]fr.Element{gamma}, cf), lin(ct)), v)
+	pB := c.pMul(lin(ch1), lin(ch2))
+	var mG fr.Element
+	mG.Neg(&G)
+	P := c.pMul([]fr.Element{mG, one}, c.pSub(c.pMul(cz, pA), c.pMul(c.pShiftArg(cz, g), pB)))
+	tD, e4 := c.pDivXnMinus1(P, m)
+	if !e4 {
+		return proof, false
+	}
+	var a2, a3 fr.Element
+	a2.Square(&alpha)
+	a3.Mul(&a2, &alpha)
+	chh := c.pAdd(c.pAdd(c.pScale(tA, a3), c.pScale(tB, a2)), c.pAdd(c.pScale(tC, alpha), tD))
+	if !commit(x.h, chh) {
+		return proof, false
+	}
+	nu := c.deriveG1(fs, "nu", x.h)
+	if *x.batched, err = kzg.BatchOpenSinglePoint([][]fr.Element{ch1, ch2, ct, cz, cf, chh}, []kzg.Digest{*x.h1, *x.h2, *x.t, *x.z, *x.f, *x.h}, nu, sha256.New(), srs.Pk); err != nil {
+		return proof, false
+	}
+	var gnu fr.Element
+	gnu.Mul(&nu, &g)
+	if *x.shifted, err = kzg.BatchOpenSinglePoint([][]fr.Element{ch1, ch2, ct, cz}, []kzg.Digest{*x.h1, *x.h2, *x.t, *x.z}, gnu, sha256.New(), srs.Pk); err != nil {
+		return proof, false
+	}
+	return proof, true
+}
+
 func (c c17C_bn254) plookup(a kvs, derive bool) string {
 	srs, err := kzg.NewSRS(uint64(a.int("n")), a.big("tau"))
 	if err != nil {
@@ -549,6 +810,23 @@ func (c c17C_bn254) plookup(a kvs, derive bool) string {
 	}
 	if a["kind"] == "table" {
 		return c.plookupTable(a, srs, derive)
+	}
+	if a["mut"] == "consist" {
+		proof, ok := c.plkForge(srs, c.frs(bigL(a["f"])), c.frs(bigL(a["t"])), a.int("fm"), c.fr(a.big("fg")), c.fr(a.big("m")))
+		if !ok {
+			if derive {
+				return "proved=0"
+			}
+			return "err"
+		}
+		if derive {
+			x := c.plkFields(&proof)
+			beta, gamma, alpha, nu := c.plkChallenges(x)
+			return "proved=1 size=" + strconv.FormatUint(*x.size, 16) + " g=" + c.frHex(*x.g) + " cv=" + c.showFrs(x.batched.ClaimedValues) +
+				" scv=" + c.showFrs(x.shifted.ClaimedValues) + " beta=" + c.frHex(beta) + " gamma=" + c.frHex(gamma) + " alpha=" + c.frHex(alpha) +
+				" nu=" + c.frHex(nu) + " kb=1 ks=1"
+		}
+		return c17Verdict(plookup.VerifyLookupVector(srs.Vk, proof))
 	}
 	proof, err := plookup.ProveLookupVector(srs.Pk, c.frs(bigL(a["f"])), c.frs(bigL(a["t"])))
 	if err != nil {
